@@ -393,6 +393,9 @@ class Gen:
                 sufs.pop()
             if paren and not sufs:
                 sufs.append(rng.choice(('attr', 'index')))
+        if paren and sufs:
+            # (exp) followed by an index/field/call: the parentheses are not in the exposed tree
+            self.p.feats.add('paren-prefix-suffix')
         if paren and sufs and (len(cur) > 1 or cur[0] == ('...',)):
             # the parser hands such a prefix to the writers without its parentheses
             self.p.feats.add('paren-op-prefix')
